@@ -21,6 +21,7 @@ def tril(i, j):
 
 class Check(PropCheck):
     pid = 'C08'
+    pure_predicate = True
     rule = ('trees with polytomies, unary nodes, two- and three-child roots, names assigned so that arena order, sorted order and '
             'traversal order all differ, 2-40 (quick) / 2-300 (thorough) leaves; exact dyadic lengths (bit-exact comparison with the '
             'exact path sums), an inexact stream at 1e-9, trees without any length (edge counts), trees after edits; both algorithms, '
